@@ -32,6 +32,10 @@ func (p preFields) String() string {
 
 // c20Compare runs both decoders on enc and applies the oracle.
 func c20Compare(cs *mon.Case, sp *saml2.SAMLServiceProvider, enc string, logout bool) {
+	c20CompareKeyed(cs, sp, enc, logout, "")
+}
+
+func c20CompareKeyed(cs *mon.Case, sp *saml2.SAMLServiceProvider, enc string, logout bool, shape string) {
 	var val, pre preFields
 	var verr, perr error
 	pv, stack := mon.Guard(func() {
@@ -85,7 +89,11 @@ func c20Compare(cs *mon.Case, sp *saml2.SAMLServiceProvider, enc string, logout 
 		cs.Violation(k, "full validation accepts but the unverified decoder fails: %v", perr)
 	case verr == nil && val.String() != pre.String():
 		cs.Outcome("disagree")
-		cs.Violation("predecode-disagrees", "validated: %s | pre-decoded: %s", val, pre)
+		key := "predecode-disagrees"
+		if shape == "prefixed-first" || shape == "prefixed-id" || shape == "prefixed-destination" {
+			key = "predecode-disagrees:idp-signed-foreign-namespace-attribute"
+		}
+		cs.Violation(key, "validated: %s | pre-decoded: %s", val, pre)
 	case verr == nil:
 		cs.Outcome("agree")
 	case perr == nil:
@@ -247,18 +255,29 @@ func runC20(c *mon.Ctx) {
 		logout := k%5 == 0
 		var doc string
 		var err error
+		nonASCII := k%2 == 0 // root fields with non-ASCII characters (the SP then has no configured issuer)
 		if logout {
 			l := sim.GenuineLogout(w.Env, true)
+			if nonASCII {
+				l.Issuer = sim.S("https://idp.example.test/f\u00e9d\u00e9ration/\u65e5\u672c")
+				l.InResponseTo = sim.S("_r\u00e9q-\u00fc\u00f1\u00ee")
+				l.ID = sim.S("_\u00efd-1")
+			}
 			doc, err = sim.BuildLogout(l, sim.PlainStyle())
 			doc = strings.Replace(doc, "<samlp:LogoutResponse", "<samlp:Response", 1) // shapeRoot looks for this marker
 			if err == nil {
 				var kind string
 				doc, kind = shapeRoot(r, doc)
 				doc = strings.Replace(doc, "<samlp:Response", "<samlp:LogoutResponse", 1)
-				cs.Desc("logout shape=%s", kind)
+				cs.Desc("logout shape=%s nonascii=%v", kind, nonASCII)
 			}
 		} else {
 			rec := sim.GenuineResponse(w.Env, 1)
+			if nonASCII {
+				rec.Issuer = sim.S("https://idp.example.test/f\u00e9d\u00e9ration/\u65e5\u672c")
+				rec.InResponseTo = sim.S("_r\u00e9q-\u00fc\u00f1\u00ee")
+				rec.ID = sim.S("_\u00efd-1")
+			}
 			if !skip {
 				rec.Assertions[0].Sig = sim.DefaultSig(signer.Key, signer)
 			}
@@ -266,7 +285,7 @@ func runC20(c *mon.Ctx) {
 			if err == nil {
 				var kind string
 				doc, kind = shapeRoot(r, doc)
-				cs.Desc("sso shape=%s skip=%v", kind, skip)
+				cs.Desc("sso shape=%s skip=%v nonascii=%v", kind, skip, nonASCII)
 			}
 		}
 		if err != nil {
@@ -275,6 +294,9 @@ func runC20(c *mon.Ctx) {
 		}
 		cs.Input([]byte(doc))
 		sp, _, _ := NewSP(w.Now, signer)
+		if nonASCII {
+			sp.IdentityProviderIssuer = ""
+		}
 		sp.SkipSignatureValidation = skip || logout && r.IntN(2) == 0
 		level := sim.RawLevel
 		if r.IntN(4) == 0 {
@@ -283,5 +305,49 @@ func runC20(c *mon.Ctx) {
 		cs.Nontrivial(fmt.Sprintf("%x", mon.Hash64(doc)))
 		c20Compare(cs, sp, sim.Encode(doc, level), logout)
 		c.Count("shape."+strings.TrimPrefix(strings.Fields(cs.Description())[1], "shape="), 1)
+	}
+
+	// (c) the same root shapes on a root the IdP itself signed (shapes that survive a parse/serialise cycle)
+	nc := c.N(900, 40000)
+	for k := 0; k < nc; k++ {
+		cs := c.Begin("shaped-signed-roots", k)
+		if cs == nil {
+			continue
+		}
+		r := cs.Rand()
+		signer := w.IdP[2]
+		rec := sim.GenuineResponse(w.Env, 1)
+		base, err := sim.BuildResponse(rec, sim.PlainStyle())
+		if err != nil {
+			cs.Inconclusive("simulator-error")
+			continue
+		}
+		shaped, kind := shapeRoot(r, base)
+		switch kind {
+		case "dup-id", "dup-destination", "dup-inresponseto", "version-dup", "bom", "doctype", "leading-stuff", "trailing-stuff", "decl-utf8", "decl-latin1", "decl-utf16-label", "decl-ascii", "decl-standalone":
+			cs.Outcome("shape-not-representable-after-signing")
+			continue
+		}
+		if r.IntN(2) == 0 && kind == "prefixed-id" {
+			// the shadowing attribute written BEFORE the plain one
+			shaped = strings.Replace(base, "<samlp:Response ", `<samlp:Response xmlns:z="urn:z" z:ID="_z_evil" z:InResponseTo="_z_req" `, 1)
+			kind = "prefixed-first"
+		}
+		d, err := sim.ParseDoc(shaped)
+		if err != nil {
+			cs.Inconclusive("simulator-error")
+			continue
+		}
+		if err := sim.SignElementInDoc(d.Root(), randSigSpec(r, signer, true, false)); err != nil {
+			cs.Inconclusive("simulator-error")
+			continue
+		}
+		doc := sim.DocString(d)
+		cs.Desc("signed root shape=%s", kind)
+		cs.Input([]byte(doc))
+		sp, _, _ := NewSP(w.Now, signer)
+		cs.Nontrivial(fmt.Sprintf("%x", mon.Hash64(doc)))
+		c20CompareKeyed(cs, sp, sim.Encode(doc, sim.RawLevel), false, kind)
+		c.Count("signedshape."+kind, 1)
 	}
 }
